@@ -12,6 +12,7 @@ def check(ctx):
     screening.required_columns(ctx, 'C10-R3')
     indexing.name_keyed_operations(ctx, 'C10-R4')
     indexing.positions_are_not_labels(ctx, 'C10-R5')
+    indexing.no_column_ranges(ctx, 'C10-R6')
     ctx.undecided += ['value equality of coerced dtypes (e.g. integer dt cast to float is exact only up to 2**53)']
     ctx.assumptions += ['a frame whose index was reset has unique labels; row filters and sorts keep labels unique; '
                         'boolean-Series selection and .loc[labels] are label-aligned (pandas semantics, A1)']
